@@ -797,15 +797,31 @@ def check_always_emits(run, rule):
         order = {id(x): i for i, x in enumerate(ir.walk(f["body"]))}
         emits = [order[id(x)] for x in ir.walk(f["body"]) if (x.get("k") == "Bin" and store_through_mp(x)) or
                  (x.get("k") in ("MCall", "Call") and (x.get("callee") or {}).get("cls") == ENC and (callee_name(x) or "").startswith("write"))]
-        first = min(emits) if emits else None
-        for st, g, loops in ir.guarded_statements(f["body"], env):
+        gs = list(ir.guarded_statements(f["body"], env))
+        guard_at = {}
+        for st, g, loops in gs:
+            if st.get("k") in ("IfCond", "LoopHead", "SwitchHead"):
+                continue
+            for x in ir.walk(st):
+                guard_at[id(x)] = g
+        emit_nodes = [x for x in ir.walk(f["body"]) if (x.get("k") == "Bin" and store_through_mp(x)) or
+                      (x.get("k") in ("MCall", "Call") and (x.get("callee") or {}).get("cls") == ENC and (callee_name(x) or "").startswith("write"))]
+
+        def contradict(g1, g2):
+            a1, a2 = conjuncts(g1), conjuncts(g2)
+            return any(ir.f_not(x) in a2 for x in a1) or any(ir.f_not(x) in a1 for x in a2)
+        fname = "%s(%s)" % (nm, ",".join(f["sig"]))
+        bad = 0
+        nret = 0
+        for st, g, loops in gs:
             if st.get("k") != "Return":
                 continue
-            if first is not None and order[id(st)] > first:
+            nret += 1
+            # an emission is on this return's path when it comes earlier and its guard can hold together with the return's
+            before = [x for x in emit_nodes if order[id(x)] < order[id(st)] and not contradict(guard_at.get(id(x), ("T",)), g)]
+            inside = [x for x in emit_nodes if any(y is x for y in ir.walk(st))]
+            if before or inside:
                 continue
-            if first is not None and any(order[id(x)] == first for x in ir.walk(st)):
-                continue      # `return write_xxx(...)`
-            n += 1
             extra = []
             for a in conjuncts(g):
                 if a[0] == "not" and a[1][0] == "nz" and str(a[1][1]).startswith("p:") and "*" in (next((p_["t"] for p_ in f["params"] if "p:" + p_["n"] == a[1][1]), "")):
@@ -815,12 +831,16 @@ def check_always_emits(run, rule):
                 if a[0] == "cmp" and a[1] == "<=" and a[3] == "this.m_avail":
                     continue
                 extra.append(a)
-            fname = "%s(%s)" % (nm, ",".join(f["sig"]))
-            run.ob(rule, "%s:return-before-emission@%s" % (fname, show_f(g)[:60]), not extra, f, st.get("l", 0),
-                   "refusal path only for a null pointer / no buffer space" if not extra else
-                   "%s returns without emitting anything when %s: every caller has already counted this item (map key written, array "
-                   "element counted), so the enclosing container is mis-framed" % (fname, " && ".join(show_f(a) for a in extra)))
-    run.floor(rule, 4, "refusal paths of the encoder primitives")
+            if extra:
+                bad += 1
+                run.ob(rule, "%s:return-before-emission@%s" % (fname, show_f(g)[:60]), False, f, st.get("l", 0),
+                       "%s returns without emitting anything when %s: every caller has already counted this item (map key written, array "
+                       "element counted), so the enclosing container is mis-framed" % (fname, " && ".join(show_f(a) for a in extra)))
+        n += 1
+        run.ob(rule, "%s:every-path-emits-or-refuses" % fname, bad == 0 and nret > 0, f, f["line"],
+               "each of the %d return path(s) has stored the item, or refuses only for a null pointer / no buffer space" % nret if bad == 0 and nret > 0 else
+               "%d return path(s) leave without emitting" % bad)
+    run.floor(rule, 12, "size_t-returning encoder primitives")
 
 
 def check(run):
